@@ -12,6 +12,8 @@ open GV GV.Drv GV.Cons
 structure St where
   /-- the model nodes of the `node` ops, by id -/
   nodes : List (String × HNode) := []
+  /-- the model nodes of the `rnode` ops (root comparisons computed with the real hash), by id -/
+  rnodes : List (String × RNode Bytes Bytes) := []
   /-- the parameter store of the `glob` ops: process-wide values and the running thread's cells -/
   ps : PStore := PStore.empty
 
@@ -181,6 +183,62 @@ def handleNode (spec : Bool) (st : St) (id : String) (args : List String) (impl 
     | none => (st, .unknown)
   | _ => (st, .unknown)
 
+/-- the real hash shapes of the header MMR: `(idx, header).hash()` with the header in hash mode
+(its packed proof nonces) and `(idx, (l, r)).hash()` -/
+def hdrHF : Pmmr.HashFn Bytes Bytes where
+  leaf := fun i e => h256 (beBytes 8 i ++ e)
+  node := fun i l r => h256 (beBytes 8 i ++ l ++ r)
+
+/-- an `fhdr?` token followed by `:<header in hash mode, hex>:<prev_root hex>` -/
+def rhdr? (s : String) : Option (RHdr Bytes Bytes) :=
+  let parts := s.splitOn ":"
+  if parts.length < 3 then none else
+  match parseHex (parts.getD (parts.length - 2) ""), parseHex (parts.getD (parts.length - 1) ""),
+        fhdr? (":".intercalate (parts.take (parts.length - 2))) with
+  | some h, some r, some f => some { f := f, leaf := h, prevRoot := r }
+  | _, _, _ => none
+
+def getRNode (st : St) (id : String) : Option (RNode Bytes Bytes) := (st.rnodes.find? (·.1 == id)).map (·.2)
+
+def setRNode (st : St) (id : String) (n : RNode Bytes Bytes) : St :=
+  { st with rnodes := (id, n) :: st.rnodes.filter (·.1 != id) }
+
+/-- the `rnode <id> …` ops: the node model with every `prev_root` comparison computed from the
+header MMR of the delivered header's own ancestors (the `rootok` field of the token is ignored);
+all answers are fixed by the rules, so they are compared as spec values -/
+def handleRNode (st : St) (id : String) (args : List String) (impl : String) : St × Verdict :=
+  match args with
+  | ["newct", c, g] => match ct? c, rhdr? g with
+    | some c, some g => (setRNode st id (RNode.genesis hdrHF c g), cmpModel "ok" impl)
+    | _, _ => (st, .unknown)
+  | _ =>
+  match getRNode st id with
+  | none => (st, .unknown)
+  | some N =>
+  match args with
+  | ["sync", o, sh, batch] => match opts? o, tip? sh, listOf rhdr? batch with
+    | some o, some sh, some batch =>
+      match syncR hdrHF N o sh batch with
+      | .ok (N', r) => (setRNode st id N', cmpDelivery true (if r then "ok:some" else "ok:none") impl)
+      | .error e => (st, cmpDelivery true e.name impl)
+    | _, _, _ => (st, .unknown)
+  | ["pbh", o, f] => match opts? o, rhdr? f with
+    | some o, some f =>
+      match pbhR hdrHF N o f with
+      | .ok N' => (setRNode st id N', cmpDelivery true "ok" impl)
+      | .error e => (st, cmpDelivery true e.name impl)
+    | _, _ => (st, .unknown)
+  | ["pb", o, bok, f] => match opts? o, bool? bok, rhdr? f with
+    | some o, some bok, some f =>
+      let (N', r) := pbR hdrHF N o f bok
+      (setRNode st id N', cmpDelivery true (showExc NErr.name r) impl)
+    | _, _, _ => (st, .unknown)
+  | ["state"] => (st, cmpSpec s!"{showTip N.n.headerHead} {showTip N.n.head}" impl)
+  | ["get", k] => match nat? k with
+    | some k => (st, cmpModel (match getHdr N.n.hdrs k with | some f => showStored f | none => "none") impl)
+    | none => (st, .unknown)
+  | _ => (st, .unknown)
+
 /-- the `glob …` ops: the parameter store folded over one thread's operations at a time -/
 def handleGlob (st : St) (args : List String) (impl : String) : St × Verdict :=
   let upd (r : Option Nat × PStore) : St × Verdict := ({ st with ps := r.2 }, cmpModel (showVal r.1) impl)
@@ -217,6 +275,7 @@ def handle (st : St) (args : List String) (impl : String) : St × Verdict :=
   match args with
   | "node" :: id :: rest => handleNode false st id rest impl
   | "wnode" :: id :: rest => handleNode true st id rest impl
+  | "rnode" :: id :: rest => handleRNode st id rest impl
   | "glob" :: rest => handleGlob st rest impl
   | ["damp", a, g, f] => match nat? a, nat? g, nat? f with
     | some a, some g, some f => (st, cmpModel (showOpt toString (damp a g f)) impl)
